@@ -269,6 +269,44 @@ def extract_rg_rule(dst):
     return 1
 
 
+def extract_rg_rules_loop(dst):
+    """Rule R8: copy the middle region of yaep_read_grammar (from the comment `/* Adding error symbol. */` up to, not including, the
+    NO_RULES test) into a generated function, with the BODY of the rule-intake loop (the compound statement rule R7 cuts out) replaced by
+    one call of the function R7 generates: `verif_rg_rule (lhs, rhs, anode, anode_cost, transl, &start);`.  Everything else - the four
+    statements for the error symbol, the loop header with its callback call - is verbatim.  Must-fire on both anchors and on the header."""
+    text = open(os.path.join(dst, "yaep.c")).read()
+    sh = _shadow(text)
+    b0, b1 = find_function(text, sh, "yaep_read_grammar")
+    body = text[b0:b1 + 1]
+    bsh = sh[b0:b1 + 1]
+    m0 = [m for m in re.finditer(r"/\* Adding error symbol\. \*/", body)]
+    m1 = [m for m in re.finditer(r"if \(grammar->axiom == NULL\)\s*VERIF_ERROR \(YAEP_NO_RULES", body)]
+    mh = [m for m in re.finditer(r"while \(\(lhs = \(\*read_rule\) \(&rhs, &anode, &anode_cost, &transl\)\) != NULL\)", bsh)]
+    if len(m0) != 1 or len(m1) != 1 or len(mh) != 1 or not (m0[0].start() < mh[0].start() < m1[0].start()):
+        raise StageError("R8: anchors of the middle region of yaep_read_grammar did not fire (%d, %d, %d)" % (len(m0), len(m1), len(mh)))
+    o = bsh.find("{", mh[0].end())
+    depth, c = 0, o
+    while c < len(bsh):
+        if bsh[c] == "{":
+            depth += 1
+        elif bsh[c] == "}":
+            depth -= 1
+            if depth == 0:
+                break
+        c += 1
+    if o < 0 or depth != 0 or c >= m1[0].start():
+        raise StageError("R8: body of the rule-intake loop not found inside the region")
+    if body[c + 1:m1[0].start()].strip():
+        raise StageError("R8: unexpected text between the rule-intake loop and the NO_RULES test")
+    region = body[m0[0].start():o] + "verif_rg_rule (lhs, rhs, anode, anode_cost, transl, &start);   /* R8: the loop body, see r7_rg_rule.inc */\n"
+    line = text.count("\n", 0, b0 + m0[0].start()) + 1
+    out = ("/* generated by stage.py rule R8 on every run: middle region of yaep_read_grammar, the loop body replaced by a call of the R7 function */\n"
+           "static struct symb *verif_rg_rules (const char *(*read_rule) (const char ***rhs, const char **abs_node, int *anode_cost, int **transl))\n{\n"
+           "  const char *lhs, **rhs, *anode;\n  struct symb *start;\n  int anode_cost;\n  int *transl;\n#line %d \"yaep.c\"\n  %s  return start;\n}\n" % (line, region))
+    open(os.path.join(dst, "r8_rg_rules.inc"), "w").write(out)
+    return 1
+
+
 def stage(dst, loops_files=None):
     """Populate dst with the staged sources. Returns info dict."""
     os.makedirs(dst, exist_ok=True)
@@ -328,6 +366,7 @@ def stage(dst, loops_files=None):
     info["r5"] = extract_rg_prefix(dst)
     info["r6"] = extract_rg_tail(dst)
     info["r7"] = extract_rg_rule(dst)
+    info["r8"] = extract_rg_rules_loop(dst)
     # bison exactly as src/CMakeLists.txt does (bison_target -> bison -o sgramm.c sgramm.y)
     r = subprocess.run(["bison", "-o", "sgramm.c", "sgramm.y"], cwd=dst, capture_output=True, text=True)
     if r.returncode != 0 or not os.path.exists(os.path.join(dst, "sgramm.c")):
